@@ -138,3 +138,21 @@ package outbound
 //@     invariant forall t int, u int {src(t), src(u)} :: 0 <= t && t < u && u < len(dialers) ==> src(t) < src(u)
 //@     invariant forall i int, j int {lh(i, j)} :: 0 <= i && i < $idx2 && 0 <= j && j < len(filters) && lh(i, j) ==> 0 <= pos(i) && pos(i) < len(dialers) && src(pos(i)) == i
 //@     invariant forall q int {lh($idx2, q)} :: 0 <= q && q < $idx ==> !lh($idx2, q)
+
+// C14: the group's policy is exactly the one function written: one of the four measured policies (no
+// parameters looked at) or fixed(<index>) with a single unnamed integer parameter and no negation;
+// anything else is an error, never a silent default. (Returns in source order.)
+//@ func NewDialerSelectionPolicyFromGroupParam
+//@   requires param != nil
+//@   nonilcheck
+//@   dyncalls noeffect
+//@   modifies *
+//@   at call ParseFunctionListOrString#1 assert a0 == param.Policy
+//@   at return 2 assert err != nil && policy == nil && len(fs) != 1
+//@   at return 3 assert err == nil && policy != nil && len(fs) == 1 && policy.Policy == fs[0].Name && needsSets(policy.Policy) && policy.FixedIndex == 0
+//@   at return 4 assert err != nil && policy == nil
+//@   at return 5 assert err != nil && policy == nil
+//@   at return 6 assert err != nil && policy == nil
+//@   at return 7 assert err == nil && policy != nil && policy.Policy == consts.DialerSelectionPolicy_Fixed && !f.Not && len(f.Params) == 1 && f.Params[0].Key == "" && policy.FixedIndex == index
+//@   at call strconv.Atoi#1 assert a0 == f.Params[0].Val
+//@   at return 8 assert err != nil && policy == nil
